@@ -787,11 +787,16 @@ def mv_read(ctx):
         body = ctx.inherent(MVREG, name)
         it = interp(facts, body)
         r = drop_lv(it.ret)
+        raw0 = it.ret
+        if not (r[0] == 'agg' and r[1] == READCTX):
+            # an empty register answered directly: judge the general path (the empty answer must be the empty context)
+            g_ = general_ret(facts, body, {'vals': (1, (vf,))})
+            if g_ is not None:
+                r, raw0 = drop_lv(g_), g_
         if not (r[0] == 'agg' and r[1] == READCTX):
             ctx.fail(name, body, 'does not return a ReadCtx')
             continue
         f = dict(r[3])
-        raw0 = it.ret
         while raw0[0] in ('lv', 'at'):
             raw0 = raw0[3] if raw0[0] == 'lv' else raw0[2]
         fr = dict(raw0[3]) if raw0[0] == 'agg' else f     # un-peeled fields keep the identity of an accumulator local
